@@ -164,7 +164,7 @@ func (o *Out) Emit(c Case) {
 	o.w.Write(buf.Bytes())
 }
 
-func okJ(v any) J   { return J{"ok": v} }
+func okJ(v any) J    { return J{"ok": v} }
 func errJ(e error) J { return J{"err": errClass(e)} }
 
 // error classes the properties distinguish; everything else is "err"
@@ -241,8 +241,10 @@ func (shiftedHasher) Hash(in []*big.Int) (*big.Int, error) {
 	x := append(append([]*big.Int{}, in...), big.NewInt(7))
 	return poseidon.Hash(x)
 }
-func (shiftedHasher) HashBytes(m []byte) (*big.Int, error) { return merklize.PoseidonHasher{}.HashBytes(m) }
-func (shiftedHasher) Prime() *big.Int                      { return new(big.Int).Set(constants.Q) }
+func (shiftedHasher) HashBytes(m []byte) (*big.Int, error) {
+	return merklize.PoseidonHasher{}.HashBytes(m)
+}
+func (shiftedHasher) Prime() *big.Int { return new(big.Int).Set(constants.Q) }
 
 type smallHasher struct{ p *big.Int }
 
@@ -278,9 +280,9 @@ func (s smallHasher) Prime() *big.Int { return new(big.Int).Set(s.p) }
 // poison hasher: installed as the global default while a custom hasher is under test.
 type poisonHasher struct{}
 
-func (poisonHasher) Hash(in []*big.Int) (*big.Int, error)   { return big.NewInt(666), nil }
-func (poisonHasher) HashBytes(m []byte) (*big.Int, error)   { return big.NewInt(667), nil }
-func (poisonHasher) Prime() *big.Int                        { return big.NewInt(1009) }
+func (poisonHasher) Hash(in []*big.Int) (*big.Int, error) { return big.NewInt(666), nil }
+func (poisonHasher) HashBytes(m []byte) (*big.Int, error) { return big.NewInt(667), nil }
+func (poisonHasher) Prime() *big.Int                      { return big.NewInt(1009) }
 
 type HSpec struct {
 	Name  string
@@ -292,8 +294,10 @@ type HSpec struct {
 func hPoseidon() HSpec {
 	return HSpec{"poseidon", "poseidon", merklize.PoseidonHasher{}, new(big.Int).Set(constants.Q)}
 }
-func hSalted() HSpec  { return HSpec{"salted", "salted", saltedHasher{}, new(big.Int).Set(constants.Q)} }
-func hShifted() HSpec { return HSpec{"shifted", "shifted", shiftedHasher{}, new(big.Int).Set(constants.Q)} }
+func hSalted() HSpec { return HSpec{"salted", "salted", saltedHasher{}, new(big.Int).Set(constants.Q)} }
+func hShifted() HSpec {
+	return HSpec{"shifted", "shifted", shiftedHasher{}, new(big.Int).Set(constants.Q)}
+}
 func hSmall(p int64) HSpec {
 	bp := big.NewInt(p)
 	return HSpec{fmt.Sprintf("small%d", p), J{"small": bp.String()}, smallHasher{bp}, bp}
@@ -304,3 +308,5 @@ func allHashers() []HSpec {
 }
 
 func jsonUnmarshal(b []byte, v any) error { return json.Unmarshal(b, v) }
+
+func bigOf(x int64) *big.Int { return big.NewInt(x) }
